@@ -944,7 +944,7 @@ func c07BucketGated(k backends.Kind, gateAt int, recreate bool, viaCopy bool) (d
 	put(st, "bk0", "src", body)
 	reached, release := make(chan struct{}), make(chan struct{})
 	var once sync.Once
-	rq := &s3x.Req{Method: "PUT", Path: "/bk1/k", Body: body, Gate: func(off int) {
+	rq := &s3x.Req{Method: "PUT", Path: "/bk1/k", Body: body, Frag: s3x.Frag{Mode: "n", N: 4096}, Gate: func(off int) {
 		if off >= gateAt {
 			once.Do(func() { close(reached); <-release })
 		}
@@ -955,7 +955,10 @@ func c07BucketGated(k backends.Kind, gateAt int, recreate bool, viaCopy bool) (d
 	select {
 	case <-reached:
 	case <-done:
-		return nil // the body was consumed without reaching the gate offset
+		if os.Getenv("VERIF_TRACE") != "" {
+			fmt.Fprintf(os.Stderr, "TRACE bucket-gated %s gate=%d: upload finished before the gate: %v\n", k, gateAt, up)
+		}
+		return dsc("inconclusive:gate-not-reached", "backend=%s: the upload finished without its body reaching offset %d", k, gateAt)
 	case <-time.After(20 * time.Second):
 		close(release)
 		return dsc("inconclusive:gate-not-reached", "backend=%s: the upload never reached body offset %d", k, gateAt)
@@ -985,6 +988,9 @@ func c07BucketGated(k backends.Kind, gateAt int, recreate bool, viaCopy bool) (d
 		return dsc("panic", "backend=%s: upload: %s at %s", k, up.Panic, up.PanicSite)
 	}
 	g := get(st, "bk1", "k")
+	if os.Getenv("VERIF_TRACE") != "" {
+		fmt.Fprintf(os.Stderr, "TRACE bucket-gated %s gate=%d recreate=%v blocked=%v up=%d rivals=%v get=%d\n", k, gateAt, recreate, blocked, up.Status, rv, g.Status)
+	}
 	fail := func(kind, f string, a ...interface{}) {
 		ds = append(ds, disc{Kind: kind, Detail: fmt.Sprintf("backend=%s gate=%d recreate=%v rivals-blocked=%v: upload answered %d, DELETE bucket %d, PUT bucket %d, then GET answers %d (%d bytes): ", k, gateAt, recreate, blocked, up.Status, rv[0], rv[1], g.Status, len(g.Body)) + fmt.Sprintf(f, a...)})
 	}
@@ -1218,7 +1224,7 @@ func c07RunBucket(c *evid.Collector, kinds []backends.Kind) {
 		if k.IsSingle() {
 			continue
 		}
-		for _, gate := range []int{1, 25000, 49999} {
+		for _, gate := range []int{1, 25000, 49152} {
 			for _, recreate := range []bool{true, false} {
 				ds := c07BucketGated(k, gate, recreate, false)
 				cs := c07Case{Backend: k, Keys: 1, Bucket: &c07BucketSpec{GateAt: gate, Recreate: recreate}}
